@@ -2524,7 +2524,7 @@ public:
     packedWord |= value.size() & 0xFF;
     for (size_t strByteIndex = 0; strByteIndex < value.size(); strByteIndex++) {
       auto bytePos = (strByteIndex + 1) % 4;
-      packedWord |= value[strByteIndex] << (bytePos * 8);
+      packedWord |= static_cast<uint32_t>(static_cast<unsigned char>(value[strByteIndex])) << (bytePos * 8);
       if (bytePos == 3 || strByteIndex == (value.size() - 1)) {
         genData(packedWord);
         packedWord = 0;
